@@ -10,7 +10,7 @@ CLAIMED = {
    note="Trusted: TLC, the Json module, the harness's rendering of abstract times (hours before/after now) and of name ranks; bounds: quick 8 operations / 3 pushes, thorough 9 / 4, 9 batch kinds, 4 orders; random histories up to 40 operations over <= 4 groups.",
    technique="TLA+ transcription of queue.Tagged model-checked with TLC; TLC-enumerated histories replayed on the real queue; TLC trace validation of observed Pop results"),
  "C12": dict(engine="queue", design="3 C12",
-   text="TLC checks strict priority, no idle Pop while a group is ready, last-file-delay skipping and the rotation formula (at least once between two chunks of a group, exactly once while that group stayed ready) in every state of Queue.tla for all histories over 4 groups with 2 priorities and delay on/off; every enumerated history is replayed on the real queue.Tagged; TLC evaluates the formulas on observed results.",
+   text="TLC checks strict priority, no idle Pop while a group is ready, last-file-delay skipping and the rotation formula (at least once between two chunks of a group, exactly once while that group stayed ready) in every state of Queue.tla for all histories over 4 groups with 2 priorities and delay on/off, with time passing as an event (no file is younger than the last-file delay any more) and a second family with two priority classes of two groups each; every enumerated history is replayed on the real queue.Tagged; TLC evaluates the formulas on observed results.",
    note="Trusted as C10. 'ready' is computed from the observed history (pushed minus emitted bytes), a young single pending file counts as withheld.",
    technique="TLA+ transcription of queue.Tagged model-checked with TLC; replay of enumerated histories; TLC trace validation"),
 }
@@ -26,9 +26,9 @@ STAGE_NOTE = ("Trusted: TLC, the Json module, the hook package (one-line observa
 def stage_entry(design, text):
     return dict(engine="stage", design=design, text=text, note=STAGE_NOTE,
       technique="TLA+ model of stage.Stage model-checked with TLC; TLC-generated command sequences and hook-point crash enumeration executed on the real Stage; TLC trace validation of observed durable states")
-CLAIMED["C01"] = stage_entry("3 C01", "TLC checks on Stage.tla, in every reachable state and for every interleaving within the bounds, that the final directory only ever holds a complete announced version whose hash is in the receive log (also between the two renames of the move) and that a positive status is given only for content held validated; the same formulas plus 'a complete body that does not match its hash is reported failed' are evaluated by TLC on the states observed from the real Stage for TLC-generated command sequences of any (also non-protocol) sender: corrupted parts, overwritten staged bytes, wrong announced hash, version changes, restarts.")
+CLAIMED["C01"] = stage_entry("3 C01", "TLC checks on Stage.tla, in every reachable state and for every interleaving within the bounds, that the final directory only ever holds a complete announced version whose hash is in the receive log (also between the two renames of the move) and that a positive status is given only for content held validated; the same formulas plus 'a complete body that does not match its hash is reported failed' are evaluated by TLC on the states observed from the real Stage for TLC-generated command sequences of any (also non-protocol) sender: corrupted parts, overwritten staged bytes, wrong announced hash, version changes, restarts. In addition (L2) every schedule of the family 'resize' (a source file rewritten smaller or larger at every interface call of the real Broker, 1-2 threads, deletion on/off) runs as a whole transfer against the real receiver and TLC checks on every recorded receiver state that what is in the final directory is byte for byte a version the source had and one the receive log names.")
 CLAIMED["C04"] = stage_entry("3 C04", "TLC checks on Stage.tla that a file is logged only after its announced predecessor (first log index order) for chains, a predecessor cycle (with the cycle breaker) and restarts; on the real Stage the same formula and 'a validated file whose predecessor is not delivered is held and answered waiting; waiting is said only for a held file' are evaluated over TLC-generated sequences in four universes (chain, cycle, same leaf name in two directories with rename, names that are substrings of one another).")
-CLAIMED["C05"] = stage_entry("3 C05", "TLC checks on Stage.tla that every (name, hash) arrives in the final directory at most once and is logged at most 1 + crashes times, over all retransmission interleavings of a protocol-following sender, crashes, cleaning and cache expiry; on the real Stage the arrivals are counted at the hook after the move and the formulas, 'queries change nothing durable' and 'a retransmission of a delivered version is acknowledged and has no effect' are evaluated by TLC on the observed states.")
+CLAIMED["C05"] = stage_entry("3 C05", "TLC checks on Stage.tla that every (name, hash) arrives in the final directory at most once and is logged at most 1 + crashes times, over all retransmission interleavings of a protocol-following sender, crashes, cleaning and cache expiry; on the real Stage the arrivals are counted at the hook after the move and the formulas, 'queries change nothing durable', 'a retransmission of a delivered version is acknowledged and has no effect' and 'a part of a delivered, logged version is known to the receiver, also when the delivery is known only from the log' are evaluated by TLC on the observed states (universes U1 and U4, focused exhaustive sequences of receive / query / restart / cache-expiry commands).")
 CLAIMED["C06"] = stage_entry("3 C06", "TLC explores a crash after every durable action of Stage.tla (one action per file-system mutation) followed by the steps of Recover, and checks no stranded move, no loss of anything confirmed, C01 and C05 across the crash; on the real code every occurrence of every hook point of every command of the selected scenarios is a crash point (image copied while the goroutine is parked, new Stage + Recover on the image, sender asks before re-sending) and TLC evaluates the same formulas and the post-recovery condition of every companion on the observed states.", ) | dict(category="model_checking")
 CLAIMED["C09"] = stage_entry("3 C09", "TLC checks on Stage.tla (two connections, write before lock) that a companion only claims blocks that were written into a staged body and that a body is treated as complete only if every block was written; on the real Stage the formulas are evaluated on the observed .part/.full/.wait bytes against the companion, Scan listings, Received answers and the count answered to two-part 'how many of these did you get' queries (only leading parts on record may be counted).")
 CLAIMED["C20"] = stage_entry("3 C20", "TLC checks on Stage.tla that cleaning removes a partial or companion only of a (name, hash) that was delivered or logged, with AgePart / CleanStray / CleanLoop / ExpireCache enabled between the requests of a running transfer; on the real Stage CleanNow is run after TLC-generated histories (aged partials via chtimes) and TLC evaluates the formula on what the clean hook reported plus 'cleaning touches nothing but day-old partials and their companions'.")
